@@ -165,11 +165,11 @@ PROPS = {
         "assumptions": ["capacity limits and documented preconditions"],
     },
     "C11": {
-        "claim": "Decides MG1–MG6: nothing is written through the right-graph parameter (h is unchanged); the call closure of merge changes the left graph only through add/bind/put/next_id, so the GC state after a merge is one those calls produce and C01–C03 carry over; every bind(left,_,a) is control-dependent on kid(left,a) being None (an existing edge is never redirected); a new vertex is created exactly on the path where neither kid(left,a) nor the map has a target, as next_id → add(id) → bind(left,id,a); put(left,d) is guarded by the right vertex having data and d is that vertex's data; the descent recurses on (matched, to) after marking right in the map. Does not decide that every labelled path of h exists afterwards with equal data nor injectivity of the mapping (graph-level value facts).",
+        "claim": "Decides MG1–MG6: nothing is written through the right-graph parameter (h is unchanged); the call closure of merge changes the left graph only through add/bind/put/next_id, so the GC state after a merge is one those calls produce and C01–C03 carry over; every bind(left,_,a) is control-dependent on kid(left,a) being None (an existing edge is never redirected); a new vertex is created exactly on the path where neither kid(left,a) nor the map has a target, as next_id → add(id) → bind(left,id,a); put(left,d) is guarded by the right vertex having data and d is that vertex's data; the descent recurses on (matched, to) after marking right in the map; merge() constructs an Err only on the edge where the completeness test fails (MG8: 'returns Ok' is not refused for any other reason; errors propagated from the descent aside). Does not decide that every labelled path of h exists afterwards with equal data nor injectivity of the mapping (graph-level value facts).",
         "note": "Trusted: rustc front end + engine; std HashMap. merge() on non-tree input is outside the property (scoped exemption for the repair helper).",
         "technique": "MIR purity (read-only parameter) + who-may-call + guard/provenance rules on the descent",
-        "rules": [("MG1", MG.mg1), ("MG2", MG.mg2), ("MG3-6", MG.mg3456)],
-        "explanation": "MG1 read-only right graph, MG2 additive through the API only, MG3 bind guard, MG4 creation shape, MG5 data copy, MG6 descent/marking.",
+        "rules": [("MG1", MG.mg1), ("MG2", MG.mg2), ("MG3-6", MG.mg3456), ("MG7/MG8", MG.mg78)],
+        "explanation": "MG1 read-only right graph, MG2 additive through the API only, MG3 bind guard, MG4 creation shape, MG5 data copy, MG6 descent/marking, MG7/MG8 Ok/Err exactly on the completeness test.",
         "trusted": [RUSTC, CONTAINERS],
         "assumptions": ["both graphs are trees of present vertices"],
     },
